@@ -17,7 +17,7 @@ func init() {
 		Explanation: "Decides the flow-control mechanism of RuleGroup.Eval, not data-dependent skip counts: R1 every path from the rule loop to Eval's return resets Skip, SkipAfter and a phase-scoped AllowType (path query over the SSA CFG); " +
 			"R2 every exit edge of the rule loop is classified by its guard facts and an allow-caused exit is impossible in the logging phase unless it is allow:phase (facts on the exit edge: AllowType==All needs phase!=Logging, AllowType==Request needs phase in {1,2}); " +
 			"R3 Skip/SkipAfter/AllowType have a frozen writer set and are read only by the rule loop, and Transaction.Allow stores its argument under exactly the guard RuleEngine==On; R4 exclusion lists, pending marker, skip counter and allow switch are all decided before r.Evaluate within the same iteration (facts at the call; no same-iteration path from a skipping edge to the call), a marker clears SkipAfter only on equality, the skip counter is decremented exactly once per skipped rule, and an iteration bypasses the counter only for a documented cause (phase filter, removal by ctl, pending skipAfter); " +
-			"R5 a chain member with an explicit disruptive action is rejected and the pending chain discarded on that path; R6 allow:request is reset inside the loop only at phase 2; R7 the flow and disruptive actions of a fired rule (skip, skipAfter, allow, deny ...) are evaluated under no condition other than the chain result, the chain-starter test and the action type — in particular not depending on interruption, engine mode or phase.",
+			"R5 a chain member with an explicit disruptive action is rejected and the pending chain discarded on that path; R6 allow:request is reset inside the loop only at phase 2; R7 the flow and disruptive actions of a fired rule (skip, skipAfter, allow, deny ...) are evaluated under no condition other than the chain result, the chain-starter test and the action type — in particular not depending on interruption, engine mode or phase; R8 the SecMarker and SecAction directives add their rule to the rule group on every successful path.",
 		NotDecided: []string{
 			"exact number of rules skipped for data-dependent matches",
 			"chain link ordering beyond C01.R6",
@@ -258,6 +258,28 @@ func runC08(c *an.Ctx) {
 	}
 	c.MinCount("R4", "in-loop decrement of tx.Skip", nDec, 1)
 
+	// per-transaction state that rules can change while the phase runs (ctl:ruleRemoveById and its range form) is
+	// read afresh for every rule: no read of it sits outside the rule loop (a snapshot taken before the loop makes a
+	// ctl take effect only from the next phase on)
+	for _, fld := range []string{"ruleRemoveByID", "ruleRemoveByIDRanges"} {
+		nIn, nOut := 0, 0
+		var outPos token.Pos
+		an.Instrs(m.fn, func(in ssa.Instruction) {
+			u, ok := in.(*ssa.UnOp)
+			if !ok || u.Op != token.MUL || !an.IsFieldAddrOf(u.X, fullWAF, "Transaction", fld) {
+				return
+			}
+			if m.loop.Blocks[in.Block()] {
+				nIn++
+			} else {
+				nOut++
+				outPos = in.Pos()
+			}
+		})
+		c.Check(nIn >= 1 && nOut == 0, "R4", "Eval: tx."+fld+" is read inside the rule loop only", outPos, fmt.Sprintf("%d reads, all inside the loop", nIn),
+			fmt.Sprintf("tx.%s is read %d time(s) outside the rule loop (and %d inside): the loop works on a snapshot, so an exclusion added by a rule of this phase does not apply to the later rules of the same phase", fld, nOut, nIn))
+	}
+
 	// skip:N counts every entry of the current phase that is not removed: an iteration may go on to the next rule
 	// without having consulted the skip counter only because of the phase filter, the removal lists or a pending
 	// skipAfter (facts on the continuing block); anything else (e.g. "markers need no evaluation") makes some
@@ -341,6 +363,29 @@ func runC08(c *an.Ctx) {
 
 	// ---- R7 the flow actions of a fired rule always run.
 	c08FlowActionsRun(c)
+
+	// ---- R8 every SecMarker directive registers a marker: skipAfter resumes after the *next* marker of that name,
+	// so a marker that is accepted by the parser but not added (e.g. "already defined") moves the landing point
+	for _, dn := range []string{"directiveSecMarker", "directiveSecAction"} {
+		fn := c.Fn("R8", "internal/seclang."+dn)
+		if fn == nil {
+			continue
+		}
+		ei := an.ErrorIndex(fn.Signature)
+		w := an.FindPath(an.PathQuery{Fn: fn,
+			Stop: func(x ssa.Instruction) bool {
+				return an.IsCallToMethod(x, fullWAF, "RuleGroup", "Add")
+			},
+			Target: func(x ssa.Instruction) bool {
+				r, ok := x.(*ssa.Return)
+				return ok && (ei < 0 || an.ReturnMayBeNilError(r, ei))
+			}})
+		if w != nil {
+			c.Bad("R8", dn+" adds its rule on every successful path", w.Target.Pos(), dn+" can return success without having added the marker/action rule to the rule group: the directive is accepted and silently dropped, so a skipAfter aimed at it lands elsewhere (or nowhere)", c.P.TrailString(w)...)
+		} else {
+			c.Ok("R8", dn+" adds its rule on every successful path", fn.Pos(), "every nil-error return follows Rules.Add")
+		}
+	}
 }
 
 func c08Chain(c *an.Ctx) {
